@@ -9,6 +9,7 @@ import (
 	"time"
 
 	"verif/lib/concfs"
+	"verif/lib/fsx"
 )
 
 func main() {
@@ -46,6 +47,25 @@ func main() {
 			{{Op: "OpenFile", A: "/d/y", Flag: os.O_RDWR | os.O_CREATE | os.O_EXCL, Perm: 0o644}}, {{Op: "MkdirAll", A: "/d/y/y", Perm: 0o755}},
 		}
 		pl.Programs = append(pl.Programs, concfs.Pairs("OrefaFS", false, shared)...)
+
+		// threads on DISTINCT files of one file system must touch disjoint memory: whatever two
+		// unrelated nodes share (a zero page lent to grown files, a pooled buffer, a package-level
+		// scratch slice) shows only when both are written in place — a file created empty, grown by
+		// Truncate (by handle and by name), written inside the grown range and read back
+		grown := func(p, b string) []concfs.Tmpl {
+			cr := os.O_RDWR | os.O_CREATE
+			return []concfs.Tmpl{
+				{{Op: "H.Open", A: p, Flag: cr, Perm: 0o644}, {Op: "H.Truncate", N: 4}, {Op: "H.WriteAt", Data: b, N: 1}, {Op: "H.ReadAt", N: 4, M: 0}, {Op: "H.Close"}},
+				{{Op: "H.Open", A: p, Flag: cr, Perm: 0o644}, {Op: "H.Close"}, {Op: "Truncate", A: p, N: 3}, {Op: "H.Open", A: p, Flag: os.O_RDWR}, {Op: "H.Write", Data: b}, {Op: "H.Close"}},
+			}
+		}
+		for _, fs := range []string{"MemFS", "OrefaFS"} {
+			for _, a := range grown("/d/p", "A") {
+				for _, b := range grown("/f/q", "B") {
+					pl.Programs = append(pl.Programs, concfs.Prog{FS: fs, Threads: [][]fsx.Call{a, b}})
+				}
+			}
+		}
 
 		if tier == "thorough" {
 			pl.Bound = 2
